@@ -6,26 +6,59 @@
 use ferrous::protocol::RespFrame;
 use ferrous::storage::commands::streams::*;
 use ferrous::storage::stream::{Stream, StreamEntry, StreamId};
+use ferrous::storage::rdb::{RdbConfig, RdbEngine};
 use ferrous::storage::StorageEngine;
 use std::collections::HashMap;
 use std::panic::{catch_unwind, AssertUnwindSafe};
 use std::sync::Arc;
 use std::time::{SystemTime, UNIX_EPOCH};
-use verif_harness::line_loop;
 use verif_harness::util::*;
 
 struct St {
     stream: Stream,
     engine: Arc<StorageEngine>,
+    dir: String,
+    n: usize,
 }
 
-fn main() {
-    let st = St { stream: Stream::new(), engine: StorageEngine::new() };
-    line_loop(st, |st, ws| match catch_unwind(AssertUnwindSafe(|| step(st, ws))) {
-        Ok(s) => s,
-        Err(_) => "panic".into(),
-    });
+extern "C" {
+    fn dup(fd: i32) -> i32;
+    fn dup2(a: i32, b: i32) -> i32;
 }
+
+/// `RdbEngine::{save,load}` print progress lines with `println!`: the protocol answers go to a duplicate of
+/// the original stdout and fd 1 is pointed at stderr, so they cannot mix.
+fn main() {
+    use std::io::{BufRead, Write};
+    use std::os::unix::io::FromRawFd;
+    let mut out = unsafe {
+        let fd = dup(1);
+        dup2(2, 1);
+        std::fs::File::from_raw_fd(fd)
+    };
+    std::panic::set_hook(Box::new(|_| {}));
+    let cache = std::env::var("VERIF_CACHE").unwrap_or_else(|_| "/verif/.cache".into());
+    let dir = format!("{}/run/stream-{}", cache, std::process::id());
+    let _ = std::fs::create_dir_all(&dir);
+    let mut st = St { stream: Stream::new(), engine: StorageEngine::new(), dir: dir.clone(), n: 0 };
+    let stdin = std::io::stdin();
+    for line in stdin.lock().lines() {
+        let line = match line { Ok(l) => l, Err(_) => break };
+        let ws: Vec<&str> = line.split_whitespace().collect();
+        let ans = match catch_unwind(AssertUnwindSafe(|| step(&mut st, &ws))) {
+            Ok(s) => s,
+            Err(_) => "panic".into(),
+        };
+        let _ = writeln!(out, "{}", ans);
+        let _ = out.flush();
+    }
+    let _ = std::fs::remove_dir_all(&dir);
+}
+
+/// At the level of the `Stream` object the pairs are handed over as a map on every tree (the pinned parameter type
+/// is a `HashMap`; the repaired one takes any iterator of pairs, a map included) and are compared as sorted maps.
+/// Order and repeated names are judged at command level, where `handle_xadd` builds the container itself.
+fn pairs_arg(p: Vec<(Vec<u8>, Vec<u8>)>) -> HashMap<Vec<u8>, Vec<u8>> { p.into_iter().collect() }
 
 /// `Stream::add_auto` returns `StreamId` on the pinned tree and `Option<StreamId>` once the
 /// sequence-carry repair is in (refusal at the top of the ID space): accept both.
@@ -37,12 +70,12 @@ fn now_ms() -> u128 {
     SystemTime::now().duration_since(UNIX_EPOCH).map(|d| d.as_millis()).unwrap_or(0)
 }
 
-fn parse_fields(s: &str) -> Option<HashMap<Vec<u8>, Vec<u8>>> {
-    let mut m = HashMap::new();
+fn parse_fields(s: &str) -> Option<Vec<(Vec<u8>, Vec<u8>)>> {
+    let mut m = Vec::new();
     if s == "." { return Some(m); }
     for kv in s.split(',') {
         let (k, v) = kv.split_once('=')?;
-        m.insert(of_hex(k)?, of_hex(v)?);
+        m.push((of_hex(k)?, of_hex(v)?));
     }
     Some(m)
 }
@@ -59,14 +92,19 @@ fn parse_count(s: &str) -> Option<Option<usize>> {
     if s == "none" { Some(None) } else { s.parse::<usize>().ok().map(Some) }
 }
 
-fn show_fields(f: &HashMap<Vec<u8>, Vec<u8>>) -> String {
-    let mut kv: Vec<(&Vec<u8>, &Vec<u8>)> = f.iter().collect();
+/// `Stream`-object level: the pairs sorted by name (see `pairs_arg`)
+fn show_pairs<'a, I, P>(it: I) -> String where I: IntoIterator<Item = P>, P: PairRef<'a> {
+    let mut kv: Vec<(&Vec<u8>, &Vec<u8>)> = it.into_iter().map(|p| p.kv()).collect();
     kv.sort();
     kv.iter().map(|(k, v)| format!("{}={}", to_hex(k), to_hex(v))).collect::<Vec<_>>().join(",")
 }
+/// `&HashMap` yields `(&K, &V)`, a list of pairs yields `&(K, V)`
+trait PairRef<'a> { fn kv(self) -> (&'a Vec<u8>, &'a Vec<u8>); }
+impl<'a> PairRef<'a> for (&'a Vec<u8>, &'a Vec<u8>) { fn kv(self) -> (&'a Vec<u8>, &'a Vec<u8>) { self } }
+impl<'a> PairRef<'a> for &'a (Vec<u8>, Vec<u8>) { fn kv(self) -> (&'a Vec<u8>, &'a Vec<u8>) { (&self.0, &self.1) } }
 
 fn show_entry(e: &StreamEntry) -> String {
-    format!("{}-{}:{}", e.id.millis(), e.id.seq(), show_fields(&e.fields))
+    format!("{}-{}:{}", e.id.millis(), e.id.seq(), show_pairs(&e.fields))
 }
 
 fn show_entries(es: &[StreamEntry]) -> String {
@@ -90,7 +128,7 @@ fn step(st: &mut St, ws: &[&str]) -> String {
         ["new"] => { st.stream = Stream::new(); "ok".into() }
         ["addid", ms, seq, f] => {
             let (Some(ms), Some(seq), Some(f)) = (u(ms), u(seq), parse_fields(f)) else { return bad() };
-            match st.stream.add_with_id(StreamId::new(ms, seq), f) {
+            match st.stream.add_with_id(StreamId::new(ms, seq), pairs_arg(f)) {
                 Ok(()) => "ok".into(),
                 Err(_) => "refused".into(),
             }
@@ -98,7 +136,7 @@ fn step(st: &mut St, ws: &[&str]) -> String {
         ["auto", f] => {
             let Some(f) = parse_fields(f) else { return bad() };
             let t0 = now_ms();
-            let id = st.stream.add_auto(f).into_opt();
+            let id = st.stream.add_auto(pairs_arg(f)).into_opt();
             let t1 = now_ms();
             match id {
                 Some(id) => format!("id {} {} {} {}", id.millis(), id.seq(), t0, t1),
@@ -145,7 +183,31 @@ fn step(st: &mut St, ws: &[&str]) -> String {
                 None => "none".into(),
             }
         }
-        ["cnew"] => "ok".into(),
+        ["cnew"] => {
+            // a history starts with an empty key space (keeps SAVE + restart small over long runs)
+            match st.engine.flush_db(0) { Ok(()) => "ok".into(), Err(_) => "err flush".into() }
+        }
+        ["crestart"] => {
+            // SAVE + restart: RdbEngine::save of the engine, then RdbEngine::load into a fresh engine
+            st.n += 1;
+            let name = format!("d{}.rdb", st.n);
+            let cfg = RdbConfig { auto_save: false, filename: name.clone(), dir: st.dir.clone(), ..Default::default() };
+            let r = RdbEngine::new(cfg);
+            let path = format!("{}/{}", st.dir, name);
+            let out = match r.save(&st.engine) {
+                Err(_) => "err save".to_string(),
+                Ok(()) => {
+                    let eng = StorageEngine::new();
+                    match r.load(&eng) {
+                        Ok(_) => { st.engine = eng; "ok".to_string() }
+                        Err(_) => "err load".to_string(),
+                    }
+                }
+            };
+            let _ = std::fs::remove_file(&path);
+            let _ = std::fs::remove_file(path.replace(".rdb", ".tmp"));
+            out
+        }
         ["cmd", args @ ..] if !args.is_empty() => {
             let mut parts = Vec::new();
             for a in args {
@@ -202,7 +264,6 @@ fn canon_entries(f: &RespFrame) -> Option<String> {
         if fv.len() % 2 != 0 { return None; }
         let mut kv = Vec::new();
         for c in fv.chunks(2) { kv.push((bulk(&c[0])?.to_vec(), bulk(&c[1])?.to_vec())); }
-        kv.sort();
         out.push(format!("{}:{}", id, kv.iter().map(|(k, v)| format!("{}={}", to_hex(k), to_hex(v))).collect::<Vec<_>>().join(",")));
     }
     Some(if out.is_empty() { ".".into() } else { out.join(";") })
